@@ -48,3 +48,4 @@ import translate_suborder
 import translate_relpair
 import translate_relset
 import translate_relsets
+import translate_range
